@@ -5,7 +5,8 @@
 # against that worktree, and files the change under /verif/seeded/<Cxx>/ with what was run.
 set -u
 ID=$1; shift
-WT=/tmp/seed_$ID; OUT=/tmp/seed_out/$ID; DST=/verif/seeded/$ID
+# round 2: SEED_WT=/tmp/seed2_ SEED_OUT=/tmp/seed_out2 SEED_SUFFIX=b
+WT=${SEED_WT:-/tmp/seed_}$ID; OUT=${SEED_OUT:-/tmp/seed_out}/$ID; DST=/verif/seeded/$ID${SEED_SUFFIX:-}
 cd /verif
 test -s $OUT/patch.diff || { echo "no patch"; exit 2; }
 # the worktree is reset to exactly the delivered patch (git stash is shared between worktrees: never used here)
@@ -28,9 +29,10 @@ cp $OUT/patch.diff $OUT/demo.py $DST/
 python3 - "$ID" "$PYT" "$DEMO_BAD" "$DEMO_GOOD" "[${RES%,}]" <<'PY'
 import json,sys
 pid,pyt,bad,good,res=sys.argv[1:6]
-m=json.load(open('/tmp/seed_out/%s/meta.json'%pid))
+import os
+m=json.load(open(os.environ.get('SEED_OUT','/tmp/seed_out')+'/%s/meta.json'%pid))
 m['confirmed']={'pytest_on_changed_tree':pyt,'demo_exit_changed':int(bad),'demo_exit_clean':int(good),'checks_on_changed_tree':json.loads(res)}
-json.dump(m,open('/verif/seeded/%s/meta.json'%pid,'w'),indent=1)
+json.dump(m,open('/verif/seeded/%s%s/meta.json'%(pid,os.environ.get('SEED_SUFFIX','')),'w'),indent=1)
 PY
 # leave /verif's generated tables as /repo defines them
 ./check $ID >/dev/null 2>&1
